@@ -1468,4 +1468,82 @@ def standin_lsp_excluded(tier, seed):
         rmtemp(base)
 
 
-STANDINS = [standin_lsp_positions, standin_lsp_sessions, standin_lsp_excluded]
+def standin_lsp_histories(tier, seed):
+    """designed edit histories whose LAST text is valid: what the server publishes for it must be what a fresh server publishes for the
+    same text over the same files (diagnostics depend on the current texts only, not on earlier versions or on open / close events)"""
+    name = 'lsp_histories'
+    rnd = random.Random(seed + 5)
+    names = ['a', 'm', 'zz', 'b0', 'q'] if tier == 'thorough' else ['a', rnd.choice(['m', 'zz', 'b0', 'q'])]
+    bound = ('%d workspaces x 2 history families: (1) a document that imports ITSELF, edited in 2..3 steps so that a binding changes its type between versions; (2) files on disk forming a '
+             'diamond (A imports B and C, C imports B) under %d namings / directory layouts, A opened before and after an unedited open + close of B or C; after every step '
+             'the diagnostics published last for the document == a fresh server\'s on the same text and files' % (len(names), len(names)))
+    base = mktemp()
+    n = 0
+    try:
+        for wi, nm in enumerate(names):
+            # (1) self import
+            root = os.path.join(base, 'self%d' % wi)
+            os.makedirs(root)
+            f = '%s.ucg' % nm
+            uri = 'file://' + os.path.join(root, f)
+            v_str = 'let v = "s";\n'
+            v_int = 'let v = 1;\nlet me = import "%s";\nlet y = me.v + 1;\n' % f
+            v_str2 = 'let v = "s";\nlet me = import "%s";\nlet y = me.v + "t";\n' % f
+            for hist in ([v_str, v_int], [v_int, v_str2], [v_str, v_int, v_str2], [v_str2, v_int]):
+                srv = Server(root)
+                try:
+                    srv.initialize()
+                    for k, t in enumerate(hist):
+                        if k == 0:
+                            srv.notify(*open_msg(uri, t))
+                        else:
+                            srv.notify(*change_msg(uri, [t], k + 1))
+                        srv.call(*sym_req('zz'))
+                        got = srv.diags.get(uri)
+                        want = fresh_diags(root, uri, t)
+                        n += 1
+                        if isinstance(want, tuple) or not same_diags(got or [], want or []):
+                            return viol(name, bound, n, 'self-importing %s after versions %r: published %s, a fresh server on the last text publishes %s' % (f, hist[:k + 1], show_diags(got or []), want if isinstance(want, tuple) else show_diags(want or [])),
+                                        source=dict(file=f, versions=hist[:k + 1]), expected='the diagnostics of a fresh server on the last version', observed=show_diags(got or []),
+                                        how='`ucg lsp` in an empty directory: initialize, didOpen(first version), didChange(each later version); compare with a fresh server that opens the last version')
+                except (Dead, NoAnswer) as e:
+                    return viol(name, bound, n, 'server died / did not answer in a self-import history: %r' % (e,), source=dict(file=f, versions=hist), expected='answers', observed=repr(e), how='see detail')
+                finally:
+                    srv.kill()
+            # (2) diamond on disk; the names decide the directory listing order
+            root = os.path.join(base, 'dia%d' % wi)
+            sub = ['', 'lib', nm][wi % 3]
+            os.makedirs(os.path.join(root, sub) if sub else root)
+            fa, fb, fc = '%s_top.ucg' % nm, os.path.join(sub, '%s_base.ucg' % nm), os.path.join(sub, 'c_%s.ucg' % nm)
+            texts = {fb: 'let v = "s";\n',
+                     fc: 'let b = import "%s";\nlet w = b.v + "!";\n' % os.path.basename(fb),
+                     fa: 'let b = import "%s";\nlet c = import "%s";\nlet r = c.b.v + "?";\nlet t = b.v + c.w;\n' % (fb, fc)}
+            for rel, t in texts.items():
+                open(os.path.join(root, rel), 'w').write(t)
+            ua = 'file://' + os.path.join(root, fa)
+            want = fresh_diags(root, ua, texts[fa])
+            for other in (fc, fb):
+                srv = Server(root)
+                try:
+                    srv.initialize()
+                    uo = 'file://' + os.path.join(root, other)
+                    srv.notify(*open_msg(uo, texts[other]))
+                    srv.notify(*close_msg(uo))
+                    srv.notify(*open_msg(ua, texts[fa]))
+                    srv.call(*sym_req('zz'))
+                    got = srv.diags.get(ua)
+                    n += 1
+                    if isinstance(want, tuple) or not same_diags(got or [], want or []):
+                        return viol(name, bound, n, 'diamond %s <- {%s, %s}: after an unedited open + close of %s the server publishes %s for %s, a fresh server publishes %s' % (fa, fb, fc, other, show_diags(got or []), fa, want if isinstance(want, tuple) else show_diags(want or [])),
+                                    source=dict(files=texts, opened_and_closed=other, then_opened=fa), expected='the diagnostics of a fresh server', observed=show_diags(got or []),
+                                    how='write the files, `ucg lsp` in that directory: initialize, didOpen + didClose of the named file with its disk text, didOpen of the top file; compare with a fresh server that only opens the top file')
+                except (Dead, NoAnswer) as e:
+                    return viol(name, bound, n, 'server died / did not answer in a diamond history: %r' % (e,), source=dict(files=texts), expected='answers', observed=repr(e), how='see detail')
+                finally:
+                    srv.kill()
+        return dict(name=name, bound=bound, cases=n, status='ok')
+    finally:
+        rmtemp(base)
+
+
+STANDINS = [standin_lsp_positions, standin_lsp_sessions, standin_lsp_excluded, standin_lsp_histories]
